@@ -1,6 +1,7 @@
 package harness
 
 import (
+	"strings"
 	"time"
 
 	"verif/simrt"
@@ -10,3 +11,27 @@ func simrtEpoch() time.Time { return simrt.Epoch }
 
 // Now is the simulated time since the start of the run.
 func Now() time.Duration { return time.Since(simrt.Epoch) }
+
+// panicOrigin returns the innermost non-runtime function of a panic stack
+// captured by a deferred recover (the function that panicked).
+func panicOrigin(stack string) string {
+	lines := strings.Split(stack, "\n")
+	seenPanic := false
+	for _, l := range lines {
+		if strings.HasPrefix(l, "\t") || l == "" {
+			continue
+		}
+		if strings.HasPrefix(l, "panic(") {
+			seenPanic = true
+			continue
+		}
+		if !seenPanic {
+			continue
+		}
+		if strings.HasPrefix(l, "runtime.") {
+			continue
+		}
+		return l
+	}
+	return ""
+}
